@@ -391,3 +391,9 @@ func axHKDFLen(ikm, salt, info string, n int) {}
 //@ lemma auto trusted
 //@ ensures v >= 0 && n == (BitLenOf(v)+7)/8 ==> BEFixed(v, n) == BEMin(v)
 func axBEFixedMin(v Mathint, n int) {}
+
+// The order of P-384 has 384 bits.
+//
+//@ lemma auto trusted
+//@ ensures v >= 0 && v < ECOrder(CurveP384()) ==> BitLenOf(v) <= 384
+func axP384OrderBits(v Mathint) {}
